@@ -6,7 +6,7 @@ from vf.repo import R
 
 BASES = ['r22', 'r32', 'mixed-refined', 'mixed-pentagon', 'mixed-hexagon']
 
-VALID_MESH_OPS = ('refine', 'decompose', 'reduce')
+VALID_MESH_OPS = ('refine', 'decompose', 'reduce', 'bad_centre+check_fix', 'bad_layer+check_fix')
 
 
 def finish(geo, dz, top, surfaces=None):
@@ -236,6 +236,29 @@ def enumerate_ops(geo, rng, subset_limit=None, light=False):
     ops.append(['set_block_order', 'dmplex' if not poly5 else 'layer_column'])
     ops.append(['add_well', 'w   1'])
     ops.append(['check_fix'])
+    # (appended last so that the index of every operation above is what it always was)
+    # the same requests with the columns / layers given by NAME instead of as objects (both are documented)
+    firsts = {}
+    for o in ops:
+        if o[0] in ('refine', 'decompose', 'reduce', 'refine_layers', 'snap', 'snap_nearest') and o[0] not in firsts and (o[1] if o[0] != 'snap' else o[2]):
+            firsts[o[0]] = o
+    for k in ('refine', 'decompose', 'reduce', 'refine_layers', 'snap', 'snap_nearest'):
+        if k in firsts:
+            ops.append(list(firsts[k]) + ['by_name'])
+    if not light:
+        edge = [o for o in ops if o[0] == 'refine' and len(o) == 4 and o[3]]
+        if edge:
+            ops.append(list(edge[0]) + ['by_name'])
+    # a geometry with a well is moved: the well goes with it
+    ops.append(['well+translate', [100.0, -50.0, 7.5]])
+    ops.append(['well+rotate', 30.0])
+    # surface fitted to scattered data (a sloping plane inside the layer structure), all columns / a subset, with and
+    # without a smallest permissible top-block thickness
+    ops.append(['fit_surface', 1, 0.0, []])
+    ops.append(['fit_surface', 2, 4.0, cols[:max(1, len(cols) // 2)]])
+    # defects check(fix=True) promises to repair: a column centre outside its column, a layer centre outside its layer
+    ops.append(['bad_centre+check_fix', cols[0]])
+    ops.append(['bad_layer+check_fix', lays[-1]])
     return ops
 
 
@@ -269,16 +292,44 @@ def enumerate_primitives(geo, rng):
     return ops
 
 
+def fit_data(geo, seed):
+    """Scattered (x, y, z) data over (and a little around) the geometry: a sloping plane between the bottom of the
+    second layer from the bottom and the top of the model."""
+    import random
+    import numpy as np
+    rng = random.Random(seed)
+    xs = [float(n.pos[0]) for n in geo.nodelist]
+    ys = [float(n.pos[1]) for n in geo.nodelist]
+    x0, x1, y0, y1 = min(xs), max(xs), min(ys), max(ys)
+    top = geo.layerlist[0].bottom
+    low = geo.layerlist[-1].top if len(geo.layerlist) > 2 else 0.5 * (geo.layerlist[-1].top + geo.layerlist[-1].bottom)
+    pts = []
+    for _ in range(80):
+        x = rng.uniform(x0 - 0.05 * (x1 - x0), x1 + 0.05 * (x1 - x0))
+        y = rng.uniform(y0 - 0.05 * (y1 - y0), y1 + 0.05 * (y1 - y0))
+        u = (x - x0) / (x1 - x0) if x1 > x0 else 0.5
+        v = (y - y0) / (y1 - y0) if y1 > y0 else 0.5
+        w = min(1.0, max(0.0, 0.6 * u + 0.4 * v))
+        pts.append([x, y, low + w * (top - low)])
+    return np.array(pts)
+
+
 def apply_op(geo, op):
     mg = R.mulgrids
     import numpy as np
     k = op[0]
+    by_name = op[-1] == 'by_name'
+    if by_name:
+        op = op[:-1]
+
+    def cols_of(names):
+        return list(names) if by_name else [geo.column[c] for c in names]
     if k == 'refine':
-        geo.refine([geo.column[c] for c in op[1]], bisect=op[2], bisect_edge_columns=[geo.column[c] for c in op[3]])
+        geo.refine(cols_of(op[1]), bisect=op[2], bisect_edge_columns=cols_of(op[3]))
     elif k == 'decompose':
-        geo.decompose_columns([geo.column[c] for c in op[1]])
+        geo.decompose_columns(cols_of(op[1]))
     elif k == 'reduce':
-        geo.reduce([geo.column[c] for c in op[1]])
+        geo.reduce(cols_of(op[1]))
     elif k == 'delete_column':
         geo.delete_column(op[1])
     elif k == 'split_column':
@@ -290,11 +341,31 @@ def apply_op(geo, op):
     elif k == 'rename_columns':
         geo.rename_column(list(op[1]), list(op[2]))
     elif k == 'refine_layers':
-        geo.refine_layers([geo.layer[l] for l in op[1]], factor=op[2])
+        geo.refine_layers(list(op[1]) if by_name else [geo.layer[l] for l in op[1]], factor=op[2])
     elif k == 'snap':
-        geo.snap_columns_to_layers(op[1], [geo.column[c] for c in op[2]])
+        geo.snap_columns_to_layers(op[1], cols_of(op[2]))
     elif k == 'snap_nearest':
-        geo.snap_columns_to_nearest_layers([geo.column[c] for c in op[1]])
+        geo.snap_columns_to_nearest_layers(cols_of(op[1]))
+    elif k in ('well+translate', 'well+rotate'):
+        c = geo.columnlist[0]
+        if 'wz  9' not in geo.well:
+            geo.add_well(mg.well('wz  9', [np.array([c.centre[0], c.centre[1], geo.layerlist[0].bottom]),
+                                          np.array([c.centre[0], c.centre[1], geo.layerlist[-1].bottom])]))
+        if k == 'well+translate':
+            geo.translate(np.array(op[1]), wells=True)
+        else:
+            geo.rotate(op[1], wells=True)
+    elif k == 'fit_surface':
+        geo.fit_surface(fit_data(geo, op[1]), columns=list(op[3]), layer_snap=op[2], silent=True)
+    elif k == 'bad_centre+check_fix':
+        c = geo.column[op[1]]
+        far = max(float(np.linalg.norm(n.pos - c.centre)) for n in c.node)
+        c.centre = c.centre + np.array([3.0 * far, 2.0 * far])
+        geo.check(fix=True, silent=True)
+    elif k == 'bad_layer+check_fix':
+        lay = geo.layer[op[1]]
+        lay.centre = lay.top + 1.0
+        geo.check(fix=True, silent=True)
     elif k == 'rotate':
         geo.rotate(op[1])
     elif k == 'translate':
